@@ -25,11 +25,12 @@ Vars == {"lx", "ly", "lz"}
 VarSeq == <<"lx", "ly", "lz">>
 VARIABLES l, val, ids, nextId, bad, failed, seen
 
-Fresh       == {"copy-list", "subseq", "reverse", "butlast", "mapcar", "list", "append0", "append3", "reduce-key"}
+Fresh       == {"copy-list", "subseq", "reverse", "butlast", "mapcar", "list", "append0", "append3", "reduce-key",
+                "mvlist", "copy-tree", "maprest"}
 Destructive == {"setcar", "setnth", "setelt", "rplaca", "rplacd", "nconc", "nreverse", "sort", "delete", "delete-fe", "add"}
 Setters     == {"setcar", "setnth", "setelt", "rplaca"}
-\* push and pop change the place (the variable) they are given and nothing else
-PlaceOps    == {"push", "pop"}
+\* push, pop and addf change the place (the variable) they are given and nothing else
+PlaceOps    == {"push", "pop", "addf"}
 
 Rev(s) == [i \in 1..Len(s) |-> s[Len(s) + 1 - i]]
 Remove(a, s) == SelectSeq(s, LAMBDA e : e # a)
@@ -56,7 +57,11 @@ SetOps == {"union", "set-difference"}
 \* the value the language defines for the call, from the current contents
 Expect(e, v) ==
   LET s == v[e.src] IN
-  CASE e.op \in {"copy-list", "mapcar", "alias", "rest0"} -> s
+  CASE e.op \in {"copy-list", "mapcar", "alias", "rest0", "mvlist", "copy-tree", "liststar0"} -> s
+    [] e.op = "liststar"              -> <<e.a>> \o s                       \* (list* a src): a consed in front of src
+    [] e.op = "subst"                 -> [i \in 1..Len(s) |-> IF s[i] = e.a THEN 9 ELSE s[i]]
+    [] e.op = "maprest"               -> LET t == v[e.src2]  n == IF Len(s) < Len(t) THEN Len(s) ELSE Len(t) IN
+                                         [i \in 1..2 * n |-> IF i % 2 = 1 THEN s[(i + 1) \div 2] ELSE t[i \div 2]]
     [] e.op = "append0"               -> s \o <<e.a>>                       \* (append '() src (list a))
     [] e.op = "append3"               -> s \o v[e.src2] \o <<e.a>>          \* (append src src2 (list a))
     [] e.op = "add"                   -> s \o <<e.a>>
@@ -103,12 +108,12 @@ Judge(e, v0, id0, n0) ==
      why |-> [i \in 1..Len(ch) |-> Why(e, ch[i], "changed-by-failed-call")]]
   ELSE IF e.op \in PlaceOps THEN
     \* (push a place) / (pop place): the variable is rebound, every other variable keeps its contents
-    LET newsrc == IF e.op = "push" THEN <<e.a>> \o v0[e.src] ELSE Drop(1, v0[e.src])
-        wantret == IF e.op = "push" THEN newsrc ELSE IF v0[e.src] = <<>> THEN <<>> ELSE <<v0[e.src][1]>>
+    LET newsrc == IF e.op = "push" THEN <<e.a>> \o v0[e.src] ELSE IF e.op = "addf" THEN v0[e.src] \o <<e.a>> ELSE Drop(1, v0[e.src])
+        wantret == IF e.op \in {"push", "addf"} THEN newsrc ELSE IF v0[e.src] = <<>> THEN <<>> ELSE <<v0[e.src][1]>>
         free   == [x \in Vars |-> x # e.src]
         ch     == Changed(e, v0, free)
     IN [val |-> [x \in Vars |-> IF x = e.src THEN newsrc ELSE v0[x]],
-        ids |-> [x \in Vars |-> IF x = e.src /\ e.op = "push" THEN id0[x] \cup {n0} ELSE id0[x]],
+        ids |-> [x \in Vars |-> IF x = e.src /\ e.op \in {"push", "addf"} THEN id0[x] \cup {n0} ELSE id0[x]],
         nextId |-> n0 + 1,
         why |-> (IF e.vars[e.src] # newsrc THEN <<Why(e, e.src, "place-effect")>> ELSE <<>>)
                 \o (IF e.ret # wantret THEN <<Why(e, e.src, "wrong-result")>> ELSE <<>>)
